@@ -53,7 +53,23 @@ PROPS['C15'] = dict(
     trusted=L('A4', 'A5', 'A10', 'A12') + ['history part ("survives the first signal, dies on the second") = per-delivery contract from an arbitrary flag state + C02 order; the induction over histories is by DESIGN.md section C15'],
     explanation='Kani proves the contract of the closures built by the real flag::register* for all prior flag values, all statuses, all signal numbers; deliveries are modelled by a stub of signal_hook_registry::register that runs the captured closure twice.')
 
+UNITS['siginfo'] = dict(
+    name='siginfo', engine='kani', crate='.', inject=[('src/low_level/siginfo.rs', K + 'siginfo.rs')],
+    flags=['-Z', 'stubbing', '-Z', 'c-ffi', '--c-lib', '{scratch}/src/low_level/extract.c'], features='extended-siginfo',
+    harnesses={'c17_extract': dict(props=['C17'])})
+FR = 'siginfo.rs: Origin::extract (+ ICause::has_process, From<ICause>, Process::extract) linked with the real extract.c'
+obl('C17.RS-SIGNAL', FR, 'origin.signal == si_signo')
+obl('C17.RS-TABLE', FR, 'origin.cause == documented class of (si_code, si_signo), all i32 x i32')
+obl('C17.RS-PROCESS-IFF', FR, 'origin.process.is_some() <=> cause is Sent(_) or Chld(_)')
+obl('C17.RS-PID', FR, 'when reported, pid/uid equal si_pid/si_uid (all values)')
+PROPS['C17'] = dict(
+    level='proof', units=['extract_c', 'siginfo'],
+    trusted=L('A5', 'A6', 'A10') + ['x86-64 Linux siginfo_t layout (si_pid at byte 16, si_uid at 20) for the Rust-side harness; WithOrigin::load = Origin::extract of the record received (C10)'],
+    technique='function contracts on the real C file (CBMC) and on the real Rust extractor linked with that C file (Kani), full input domain',
+    explanation='CBMC proves the C classifier against the documented si_code table for every (si_code, si_signo); Kani proves Origin::extract, compiled together with the real extract.c, reports signal, cause and process exactly as the kernel-documented meaning, for all inputs.')
 import replay as _R
+for _o in ('C17.RS-SIGNAL', 'C17.RS-TABLE', 'C17.RS-PROCESS-IFF', 'C17.RS-PID'):
+    REPLAYERS[_o] = _R.replay_c17_rs
 REPLAYERS['C16.KIND'] = _R.replay_c16_kind
 HOOK_COMMITS = []
 NOT_APPLICABLE = {}
@@ -81,3 +97,13 @@ PROPS['C16'] = dict(
     level='proof', units=['sigdetails'],
     trusted=L('A4', 'A5', 'A6', 'A10') + ['that the proved call sequence has the kernel default outcome (also inside the handler) is kernel semantics'],
     explanation='Kani proves, for every c_int, that emulate_default_handler issues exactly the libc call sequence of the platform default kind (oracle: table transcribed from signal(7)), and signal_name only returns platform names.')
+
+# --------------------------------------------------------------------------------------------
+UNITS['extract_c'] = dict(name='extract_c', engine='cbmc', module='cbmc_unit', entry='run_extract')
+FC = 'extract.c: sighook_signal_cause'
+obl('C17.C-RANGE', FC, 'for all (si_code, si_signo): result in 0..=11 (valid repr(u8) discriminant read by Rust)')
+obl('C17.C-TABLE', FC, 'result equals the documented class: SI_KERNEL/USER/TKILL/QUEUE/MESGQ for any signal, CLD_* only with SIGCHLD, else 0')
+obl('C17.C-CHLD-ONLY', FC, 'si_signo != SIGCHLD => result <= 5')
+obl('C17.C-UNKNOWN', FC, 'result 0 only for codes outside the table')
+obl('C17.C-PID', 'extract.c: sighook_signal_pid', 'returns info->si_pid')
+obl('C17.C-UID', 'extract.c: sighook_signal_uid', 'returns info->si_uid')
